@@ -171,6 +171,10 @@ def c01(acc):
         _, p2 = mc_reader(acc, 2, "all", inv, name="MC_Reader-all")
         replay_reader(acc, p2, "slice")
         replay_reader(acc, p2, "slice", enc=True)
+    # construct-focused spaces: nesting inside DOCTYPE, terminator look-alikes inside comment / CDATA / PI, quotes inside tags
+    for mode, k in (("doctype", 5 if q else 6), ("comment", 5 if q else 7), ("cdata", 5 if q else 7), ("pi", 5 if q else 7), ("tag", 4 if q else 5)):
+        _, pf = mc_reader(acc, k, "neutral", ["Inv_RefMatch", "Inv_Tiling"], frag=mode, name="MC_Reader-" + mode)
+        replay_reader(acc, pf, "slice")
     trace_reader(acc, 400 if q else 3000, "doc,mut,rand,corpus", "plain", sources="slice", max_len=600 if q else 4000)
     return acc.finish()
 
@@ -379,19 +383,21 @@ def c10(acc):
                 "upper hex and zero-padded spellings (run-length encoded; TLC evaluates ValidScalar on every code point) plus boundary spellings with output bytes. "
                 "non-trivial = strings containing '&' (and every swept code point)")
     acc.trusted = ["TLC", "harness/src/esc.rs", "feature escape-html off (five predefined entities)"]
-    cfg = f"""SPECIFICATION Spec
+    for mode, n in (("general", 4 if q else 6), ("ref", 5 if q else 7)):
+        cfg = f"""SPECIFICATION Spec
 CONSTANTS
-  N = {4 if q else 6}
+  N = {n}
   Emit = TRUE
+  Mode = "{mode}"
 INVARIANTS Inv_RoundTrip Inv_Safe Inv_NoAmp Inv_Closed Inv_Stable Inv_Emit
 CHECK_DEADLOCK FALSE
 """
-    r = tlc("MC_Escape", cfg, name="MC_Escape", timeout=3000)
-    acc.add_tlc(r, f"A:MC_Escape N={4 if q else 6}")
-    p = os.path.join(work_dir("beh-MC_Escape"), "behaviours.ndjson")
-    write_ndjson(p, r.tagged.get("REPLAY", []))
-    summ, viol, _ = harness(["escape-replay", "--file", p, "--prop", acc.pid, "--out-dir", REPLAY_DIR])
-    acc.add_harness(summ, viol, "B:replay strings")
+        r = tlc("MC_Escape", cfg, name="MC_Escape-" + mode, timeout=3000)
+        acc.add_tlc(r, f"A:MC_Escape mode={mode} N={n}")
+        p = os.path.join(work_dir("beh-MC_Escape-" + mode), "behaviours.ndjson")
+        write_ndjson(p, r.tagged.get("REPLAY", []))
+        summ, viol, _ = harness(["escape-replay", "--file", p, "--prop", acc.pid, "--out-dir", REPLAY_DIR])
+        acc.add_harness(summ, viol, f"B:replay strings ({mode})")
     wd = work_dir("trace-C10")
     tp = os.path.join(wd, "trace.ndjson")
     args = ["escape-record", "--out", tp, "--n", 3000 if q else 30000, "--seed", SEED, "--sweep", 1]
@@ -549,7 +555,7 @@ def c17(acc):
     return acc.finish()
 
 
-RT_TYPES = ["F01", "F02", "F03", "F04", "F05", "F07", "F08", "F11", "F15", "F16", "F17", "F18", "F19", "F20", "F22", "F23"]
+RT_TYPES = ["F01", "F02", "F03", "F04", "F05", "F07", "F08", "F11", "F15", "F16", "F17", "F18", "F19", "F20", "F22", "F23", "F24", "F25"]
 
 
 def mc_serde(acc, types, mode, name, timeout=2500):
@@ -668,6 +674,9 @@ def c07(acc):
     acc.trusted = SERDE_TRUST + ["a concrete panic is found by running the code; the spec supplies shapes and the justifying lemma"]
     _, p = mc_de(acc, "soup", 4 if q else 5, ["F02"], "MC_De-soup")
     de_replay(acc, p, "soup", "B:token soups x all target types x from_str/from_reader", extra=["--mutate", 0 if q else 1])
+    # text runs inside an element: text / blanks / CDATA / comment / DOCTYPE / reference / end tag, up to 6 [7] pieces
+    _, pt = mc_de(acc, "textrun", 5 if q else 7, ["F02"], "MC_De-textrun")
+    de_replay(acc, pt, "soup", "B:text-run shapes inside an element x all target types")
     _, p2 = mc_de(acc, "rewrite", 1, ["F05", "F15", "F22"] if q else RT_TYPES, "MC_De-bases", timeout=3000)
     summ, viol, _ = harness(["de-mutate", "--file", p2, "--prop", acc.pid, "--out-dir", REPLAY_DIR, "--seed", SEED, "--per-doc", 3 if q else 20])
     acc.add_harness(summ, viol, "C:token-level mutations and every-byte truncations of serialized values")
